@@ -519,8 +519,9 @@ fn to_result<T>(r: Result<Result<T, MuxerError>, String>, cfg: &CCfg, map: impl 
             let (class, variant) = classify(&e, cfg.codec % 4, cfg.is_aac());
             // every public way of looking at an error value must be panic-free as well (C12)
             let fmt = guarded(|| {
-                let d = format!("{}", e);
-                let _ = format!("{:?}", e);
+                // the text kept for comparisons between runs is the Display AND the Debug rendering (the latter shows every
+                // field of the error value, e.g. the diagnostics attached to an ADTS rejection)
+                let d = format!("{} | {:?}", e, e);
                 let _ = format!("{:#}", e);
                 if let MuxerError::InvalidAdtsDetailed { error, .. } = &e {
                     let _ = error.to_json();
